@@ -11,7 +11,28 @@ let to_sel (x : v) : M.sel =
   | L [S "F"; q] -> M.SelF (to_q q)
   | _ -> raise (Bad "selector")
 
+let to_token (x : v) : M.token =
+  match x with
+  | L [k; i; f] -> { M.t_key = to_z k; M.t_int = to_opt to_z i; M.t_float = to_opt to_q f }
+  | _ -> raise (Bad "token")
+
+let of_err (e : M.err) : v =
+  S (match e with M.E_eof -> "eof" | M.E_layout -> "layout" | M.E_flag -> "flag" | M.E_number -> "number")
+
+let to_frec (x : v) : M.frec =
+  match x with
+  | L [i; b; n] -> { M.fr_id = to_z i; M.fr_best = to_xnum b; M.fr_nd = to_pos n }
+  | _ -> raise (Bad "frec")
+
 let dispatch (op : string) (x : v) : v =
   match op, args x with
+  | "filter_output", [chi; cpd; recs] ->
+      let (g, b) = M.filter_output_m (to_opt to_q chi) (to_opt to_q cpd) (to_list to_frec recs) in
+      L [of_list (fun r -> of_z r.M.fr_id) g; of_list (fun r -> of_z r.M.fr_id) b]
+  | "from_ascii", [cols] ->
+      (match M.from_ascii_m (to_list to_token cols) with
+       | M.Ok s -> L [S "ok"; of_z s.M.s_name; of_q s.M.s_x; of_q s.M.s_y; of_list of_z s.M.s_flags;
+                      of_list of_q s.M.s_flux; of_list of_q s.M.s_err]
+       | M.Err e -> L [S "err"; of_err e])
   | "nkeep", [s; nd; chi] -> of_nat (M.nkeep (to_sel s) (to_pos nd) (to_list to_xnum chi))
   | _ -> raise (Bad ("unknown op or arity: " ^ op))
